@@ -1,8 +1,9 @@
 /-
   C17 — every subschema is addressable by its JSON Pointer (json_pointer.go).
   Property theorems only; helper lemmas: JSV/Proofs/PtrEscape.lean, PtrIndex.lean, PtrWalk.lean,
-  PtrCover.lean, PtrPaths.lean.
+  PtrCover.lean, PtrPaths.lean, UriEscape.lean.
 -/
+import JSV.Proofs.UriEscape
 import JSV.Proofs.PtrWalk
 import JSV.Proofs.PtrCover
 import JSV.Proofs.PtrPaths
@@ -33,6 +34,64 @@ theorem escape_no_slash (s : String) : '/' ∉ (escapeSegment s).toList := by
     contain `~` and `/`, and the `contains '~'` shortcut of the parser) -/
 theorem parse_render (segs : List String) : Pointer.parse (Pointer.render segs) = .ok segs :=
   Pointer.parse_render segs
+
+/-! ## pointers inside URI fragments
+
+A `$ref` carries a JSON Pointer in the fragment of a URI reference: `#` followed by the percent-encoding of the
+pointer (net/url's escaping in fragment mode); url.Parse decodes it into the `Fragment` field, which is what
+dereferenceJSONPointer receives. -/
+
+/-- net/url: unescaping the escaping of any string gives the string back, in fragment, path and host mode
+    (every Lean `String` is valid Unicode: its UTF-8 bytes decode to itself) -/
+theorem pct_roundtrip (s : String) (m : Uri.Mode) : Uri.unescape (Uri.escape s m).toList = some s :=
+  Uri.unescape_escape s m
+
+theorem pct_roundtrip_fragment (s : String) : Uri.unescape (Uri.escape s .fragment).toList = some s :=
+  pct_roundtrip s .fragment
+
+theorem pct_roundtrip_path (s : String) : Uri.unescape (Uri.escape s .path).toList = some s :=
+  pct_roundtrip s .path
+
+/-- (*URL).setFragment: a fragment written as the escaping of `s` is read back as `s`, and no raw form is kept
+    (the escaping is the default one) -/
+theorem setFragment_escape (u : Uri.Url) (s : String) :
+    Uri.setFragment u (Uri.escape s .fragment).toList = some { u with fragment := s, rawFragment := "" } :=
+  Uri.setFragment_escape u s
+
+/-- the same for (*URL).setPath -/
+theorem setPath_escape (u : Uri.Url) (s : String) :
+    Uri.setPath u (Uri.escape s .path).toList = some { u with path := s, rawPath := "" } :=
+  Uri.setPath_escape u s
+
+/-- url.Parse of a fragment-only reference -/
+theorem parse_hash_escape (p : String) :
+    Uri.parse ("#" ++ Uri.escape p .fragment) = .ok { fragment := p } :=
+  Uri.parse_hash_escape p
+
+/-- the pointer of any list of reference tokens, percent-encoded into a fragment-only reference, is parsed by
+    url.Parse into a URL whose `Fragment` is the pointer, which parseJSONPointer splits into the tokens again -/
+theorem pointer_fragment_roundtrip (segs : List String) :
+    ∃ u, Uri.parse ("#" ++ Uri.escape (Pointer.render segs) .fragment) = .ok u ∧
+      u.fragment = Pointer.render segs ∧ Pointer.parse u.fragment = .ok segs :=
+  ⟨_, parse_hash_escape _, rfl, parse_render segs⟩
+
+/-- … and (*URL).String writes that reference back -/
+theorem pointer_fragment_toString (segs : List String) (h : segs ≠ []) :
+    ∃ u, Uri.parse ("#" ++ Uri.escape (Pointer.render segs) .fragment) = .ok u ∧
+      Uri.toString u = "#" ++ Uri.escape (Pointer.render segs) .fragment := by
+  refine ⟨_, parse_hash_escape _, ?_⟩
+  have hne : Pointer.render segs ≠ "" := by
+    intro e
+    have := parse_render segs
+    rw [e] at this
+    have h0 : Pointer.parse "" = .ok [] := by decide
+    rw [h0] at this
+    simp only [Res.ok.injEq] at this
+    exact h this.symm
+  have hb : ((Pointer.render segs) != "") = true := by simpa using hne
+  unfold Uri.toString Uri.escapedFragment Uri.escapedPath
+  simp only [hb, if_true]
+  rfl
 
 /-! ## the walk -/
 
@@ -218,6 +277,10 @@ example :
     (Go.checkStructure st 5 [(0, "")] []).bind (fun res => .ok (res.map fun e => (e.1, e.2.path))) =
         .ok [(0, "root"), (1, "/items"), (2, "/items/0")] ∧
       dereference st true true 0 "/items/0" = .err ∧ Go.basicChecksOk st[0] = false := by
+  decide +kernel
+/-- pointers in fragments: `~`, `/` inside a token, characters net/url escapes, non-ASCII -/
+example : Uri.escape (render ["$defs", "a b", "ü/%"]) .fragment = "/$defs/a%20b/%C3%BC~1%25" := by decide +kernel
+example : (Uri.parse "#/$defs/a%20b/%C3%BC~1%25").bind (fun u => Pointer.parse u.fragment) = .ok ["$defs", "a b", "ü/%"] := by
   decide +kernel
 /-- index rules: the unrepaired rule accepted a sign -/
 example : arrayIndex true "+1" 2 = none := by decide
